@@ -525,7 +525,7 @@ func c02Lookup(c *Ctx, ix *idxEngine, at *types.Named, rows, cells, nCols, cols 
 			if o.OK {
 				ok++
 			}
-			r.Check("R02.4", FuncName(fn), o.Kind+" "+o.What, o.In.Pos(), o.OK, o.How)
+			r.CheckHow("R02.4", FuncName(fn), o.Kind+" "+o.What, o.In.Pos(), o.OK, o.How, o.How)
 		}
 		r.Floor("R02.4", "index obligations in "+fn.Name(), n, 1)
 	}
